@@ -567,7 +567,7 @@ func buildScript(ctx, setup, op string) (main string, module string) {
 	}
 	body += "verif_mark()\n" + op + "\n"
 	switch ctx {
-	case "top", "bare-vos":
+	case "top", "bare-vos", "shared-globals":
 		return body + "r\n", ""
 	case "spawn":
 		return "verif_t := spawn(func() {\n" + body + "return r\n})\nverif_t.wait()\n", ""
